@@ -6,10 +6,10 @@ ROOT = os.path.dirname(os.path.dirname(os.path.abspath(__file__)))
 RUST_NOTE = "Rust core compiled unmodified from /repo's working tree through rust/core-shadow (features perfetto/cli off, snapshot via the local zip shim); the harness binary is a thin JSON adapter."
 CHECKS = {
  # id: (technique, level text, level_note, design_ref)
- "C01": ("exhaustive enumeration of structural instruction heads + Hypothesis raw bytes / decode histories + routine sweeps into a shared IL function, streamed decodes, landmark operand values and a harness-owned thread schedule; oracle: totality, length bounds, trailing-byte and history independence, cross-consumer agreement",
+ "C01": ("exhaustive enumeration of structural instruction heads + Hypothesis raw bytes / decode histories + routine sweeps into a shared IL function, streamed decodes, landmark operand values and a harness-owned thread schedule; oracle: totality, length bounds, trailing-byte and history independence, cross-consumer agreement; coverage-guided phase: atheris/libFuzzer (sc62015.pysc62015.instr instrumented) drives the same raw-bytes, decode-history and emulator-fetch-history Hypothesis strategies through fuzz_one_input into the same verdict code (child campaigns, per-shard cov/ft reported)",
          "Exploration: the structural part of the input space (prefix x opcode x second byte, ~1.05M heads) is enumerated completely in the thorough tier (stratified 1/16 + all operand-validating opcodes in quick); remaining operand bytes, addresses, truncations, hostile tails and decode histories are generated. Finds any consumer disagreement or escaping exception on the explored inputs; does not prove absence for unexplored tails.",
          "Trusts binja_test_mocks (mock Binary Ninja API) and the harness's reading of 'emulator fetch path' = Emulator.decode_instruction."),
- "C02": ("exhaustive enumeration of structural heads x don't-care tail patterns + streamed sequences, landmark operands, rejected-operation-first histories and a harness-owned thread schedule; round-trip oracle encode(decode(b)) == consumed bytes, re-decode equality, guard-never-demotes",
+ "C02": ("exhaustive enumeration of structural heads x don't-care tail patterns + streamed sequences, landmark operands, rejected-operation-first histories and a harness-owned thread schedule; round-trip oracle encode(decode(b)) == consumed bytes, re-decode equality, guard-never-demotes; coverage-guided phase: atheris/libFuzzer (sc62015.pysc62015.instr instrumented) drives binary(7..8) x address through the same check_one round-trip verdicts",
          "Exploration: every structural head (complete in thorough, 1/8 stratified in quick) with three tails exercising ignored bits is decoded, re-encoded and compared byte for byte; the text callback's round-trip guard must accept whatever the info callback accepts.",
          "Domain = byte strings the info callback accepts; IL equality is structural equality of mock-LLIL reprs."),
  "C03": ("generated (encoding, state) pairs; reference operand-location model driven by the rendered token stream vs logged memory callbacks and register deltas",
@@ -33,28 +33,28 @@ CHECKS = {
  "C09": ("round-trip testing disassemble -> assemble -> disassemble on generated accepted encodings, behavioural equivalence on a generated state, idempotence; listings on reused assemblers (also after rejected programs), linear sweeps, first-use start-up under a harness-owned schedule",
          "Exploration: texts rendered from decoder-accepted encodings (all opcodes x prefixes x mode bytes) are fed to the assembler; result must re-disassemble to the same text, behave identically and be a fixed point.",
          "Text normalisation is the one the statement prescribes; byte equality is not required."),
- "C10": ("grammar-based program generation (Hypothesis) + layout reference model, per-statement standalone equivalence, determinism over assemble() call histories",
+ "C10": ("grammar-based program generation (Hypothesis) + layout reference model, per-statement standalone equivalence, determinism over assemble() call histories; coverage-guided phase: atheris/libFuzzer (sc_asm.py and asm.py instrumented) mutates the byte string behind the same programs() Hypothesis strategy, cases judged by the same evaluate_program",
          "Exploration: generated programs with labels (forward/backward), sections, .ORG, data directives and symbolic operands; sizes, addresses, label encodings and statelessness checked against a layout model.",
          "Instruction palette restricted to statement shapes that assemble standalone on the unchanged tree (exclusions counted)."),
- "C11": ("Hypothesis stateful testing of load/store sequences under generated memory configurations against a reference memory model (both machine models, plus the Rust CPU-facing bus)",
+ "C11": ("Hypothesis stateful testing of load/store sequences under generated memory configurations against a reference memory model (both machine models, plus the Rust CPU-facing bus); port-sized (1-3 byte) overlays with 16/24-bit accesses at every alignment around and enclosing them; Rust ROM image through both public loaders (rom window / system image) with generated image lengths",
          "Exploration: generated configurations and 8/16/24-bit accesses at boundary-biased 32-bit addresses; every load and a set of sentinel addresses compared with the model after every operation.",
          RUST_NOTE + " Device windows are excluded from plain-memory rules."),
  "C12": ("scenario generation (ROM programs x event schedules) with a step-boundary monitor; depth-bounded complete enumeration of short event sequences",
          "Exploration: the harness owns the schedule, so interleavings of timer expiries, key events and IMR/ISR writes relative to instruction boundaries are generated inputs; gate, frame, no re-entry, RETI restore, not-lost, halt/off rules monitored per model.",
          RUST_NOTE + " 'Promptly' is checked as a bounded-response property with the bound taken from the step loops."),
- "C13": ("complete enumeration of small period pairs + sampled large periods x generated monotone cycle sequences; arithmetic reference + Python<->Rust differential; machine-level runs incl. bulk run(n)/step(n) vs single stepping",
+ "C13": ("complete enumeration of small period pairs + sampled large periods x generated monotone cycle sequences; arithmetic reference + Python<->Rust differential; machine-level runs incl. bulk run(n)/step(n) vs single stepping; host life-cycle layer: the async device-task entry point (AsyncTimerKeyboardTask on an AsyncDriver, generated slices, host resets / period reprogramming / restores of earlier snapshots between slices) judged against per-cycle ticking, and real save_snapshot -> keep running -> load_snapshot roll-backs into the used PCE500Emulator with generated snapshot producers, reference rolled back with the snapshot",
          "Exploration: per-cycle and gapped tick sequences with reset/restore points; exactly-once-per-boundary, next-target-in-future, ISR bit, disabled/zero-period and cross-implementation equality.",
          RUST_NOTE),
- "C14": ("Hypothesis stateful testing of key/strobe/scan/read histories with history invariants (KIL safety/visibility, per-key event grammar, FIFO bound, KEYI gating), per model",
+ "C14": ("Hypothesis stateful testing of key/strobe/scan/read histories with history invariants (KIL safety/visibility, per-key event grammar, FIFO bound, KEYI gating), per model; chord histories (9..20 keys, more transitions in one scan tick than the queue holds) and generated host observers (scan/KIO/tracer hooks counting or raising at generated invocations, host survives) on the Python matrix and handler",
          "Exploration: generated histories over all mapped keys, both polarities and debounce/repeat settings; invariants evaluated over the recorded history, not a copy of the automaton.",
          RUST_NOTE + " Thresholds are read from the object under test."),
- "C15": ("Hypothesis stateful testing of LCD read/write sequences against an HD61202 reference model on both implementations; complete enumeration of the VRAM-bit to pixel map",
+ "C15": ("Hypothesis stateful testing of LCD read/write sequences against an HD61202 reference model on both implementations; complete enumeration of the VRAM-bit to pixel map; bystander operations interleaved into 1/3 of the histories (public observers incl. whole-machine snapshot save inside BUSY windows; refused snapshot restores with generated defects over live state) that must leave registers, VRAM and busy a function of the window accesses only",
          "Exploration: generated command/data sequences over all chip-select decodings; chip state and read values equal the model after every step in both implementations; all 8192 VRAM bits enumerated for the pixel map.",
          RUST_NOTE),
  "C16": ("snapshot-point enumeration: every step index of generated machine scenarios as save/load point, original-vs-restored step-for-step equality; cross-implementation loading",
          "Fault-enumeration style exploration: for generated scenarios every step index is a snapshot point; the restored machine must match the uninterrupted one on registers, memory, LCD, keyboard, timers and interrupts for K further steps.",
          RUST_NOTE + " Wall-clock fields and perf counters are not compared."),
- "C17": ("complete comparison of all 256 opcode rows and every duplicated constant/table across copies, with behavioural probes for private constants",
+ "C17": ("complete comparison of all 256 opcode rows and every duplicated constant/table across copies, with behavioural probes for private constants; view segments as registered by init() for generated parent-file lengths, and the sub-register layout after generated alias / whole-register write histories (register files of both languages and executed flag / POP F programs)",
          "Exhaustive over a finite domain: every duplicated table row/constant is compared across all of its copies (Python decoder, arch/view definitions, Python emulator, Rust core), and view segments are checked for disjointness and placement.",
          RUST_NOTE + " Normalising mapping between Python operand classes and Rust operand kinds is part of the trusted base."),
  "C18": ("complete enumeration of small task sets/partitions + Hypothesis beyond, against a reference discrete-event scheduler; async-vs-sync machine equality",
